@@ -38,8 +38,8 @@ static const OpInfo OPS[H_NOPS] = {
   [H_REGHOLD] = { "reghold", 1 },   /* n: a fresh object referenced from a callee-saved register only while n allocations run */
 };
 
-enum { HK_NODE, HK_REF, HK_BOX, HK_ARR, HK_LST, HK_TBLV, HK_TBLK, HK_TREV, HK_TREK, HK_TUP, HK_JUNK, HK_RANGE, HK_SLICE, HK_OWNEDINT, HK_N };
-static const char* HKNAME[] = { "Node", "Ref", "Box", "Array", "List", "TableV", "TableK", "TreeV", "TreeK", "Tuple", "Junk", "Range", "Slice", "OwnedInt" };
+enum { HK_NODE, HK_REF, HK_BOX, HK_ARR, HK_LST, HK_TBLV, HK_TBLK, HK_TREV, HK_TREK, HK_TUP, HK_JUNK, HK_RANGE, HK_SLICE, HK_OWNEDINT, HK_TYPEOBJ, HK_N };
+static const char* HKNAME[] = { "Node", "Ref", "Box", "Array", "List", "TableV", "TableK", "TreeV", "TreeK", "Tuple", "Junk", "Range", "Slice", "OwnedInt", "Type" };
 enum { CL_MANAGED, CL_ROOT, CL_RAW, CL_UNREG };
 
 /* probe object: plain struct, no Mark instance => scanned conservatively */
@@ -101,6 +101,7 @@ static int g_focus;
 #define LV(oid, cls6, ...) do { int o__ = (oid); int box__ = o__ >= 0 && (O[o__].kind == HK_BOX || (O[o__].owner >= 0 && O[O[o__].owner].kind == HK_BOX)); \
   if (g_focus == 5 && box__) { char c5__[128]; snprintf(c5__, sizeof c5__, "C05:box%s", (cls6) + 3); viol("C05", c5__, __VA_ARGS__); } \
   if (g_focus == 19) { char c19__[128]; snprintf(c19__, sizeof c19__, "C19:heap-object%s", (cls6) + 3); viol("C19", c19__, __VA_ARGS__); } \
+  if (g_focus == 17) { char c17__[128]; snprintf(c17__, sizeof c17__, "C17:registry%s", (cls6) + 3); viol("C17", c17__, __VA_ARGS__); } \
   if (g_focus == 12) { char c12__[128]; snprintf(c12__, sizeof c12__, "C12:after-failed-call%s", (cls6) + 3); viol("C12", c12__, __VA_ARGS__); } \
   viol("C06", cls6, __VA_ARGS__); } while (0)
 
@@ -153,7 +154,7 @@ static int new_obj(var p, int kind, int cls) {
   /* C19: constructing type, heap allocation class, size(type) usable bytes */
   var want = kind == HK_NODE ? Node_T : kind == HK_REF ? Ref : kind == HK_BOX ? Box : kind == HK_ARR ? Array : kind == HK_LST ? List :
              (kind == HK_TBLV || kind == HK_TBLK) ? Table : (kind == HK_TREV || kind == HK_TREK) ? Tree : kind == HK_TUP ? Tuple :
-             kind == HK_RANGE ? Range : kind == HK_SLICE ? Slice : Int;
+             kind == HK_RANGE ? Range : kind == HK_SLICE ? Slice : kind == HK_TYPEOBJ ? Type : Int;
   if (type_of(p) isnt want) HV("C19", "C19:wrong-type:new", "new %s has type %s", HKNAME[kind], c_str(type_of(p)));
 #if CELLO_ALLOC_CHECK == 1
   if (header(p)->alloc isnt (var)AllocHeap) HV("C19", "C19:wrong-alloc-class:new", "new %s is not tagged AllocHeap", HKNAME[kind]);
@@ -265,6 +266,14 @@ static void check_registry(const char* when) {
   size_t nslots, nitems, freenum; bool running;
   Cello_Verif_GC_Info(gc, &nslots, &nitems, NULL, NULL, NULL, &running, &freenum);
   long expect = 0;
+  /* dead addresses first, before any successful lookup of this pass (a lookup cache must not answer for them) */
+  for (int i = 0; i < g_nobj; i++) {
+    Obj* o = &O[i];
+    if (!o->freed) continue;
+    int cur = pmap_get(hdr_of(o->ptr));
+    if (cur >= 0 && cur != i && O[cur].ptr == o->ptr && !O[cur].freed) continue;
+    if (mem(gc, o->ptr)) { HV("C17", "C17:dead-object-registered", "mem(gc) is true for reclaimed object #%d (%s), %s", i, HKNAME[o->kind], when); }
+  }
   for (int i = 0; i < g_nobj; i++) {
     Obj* o = &O[i];
     int should = o->registered && !o->freed && !(o->alive == 0 && !o->deferred);
@@ -454,6 +463,14 @@ static void do_burst(int n) {
 /* ------------------------------------------------------------------- ops */
 static void op_newnode(const Op* op) {
   int s = (int)(((op->a[0] % NSLOT) + NSLOT) % NSLOT), cls = cls_norm(op->a[1]);
+  if ((op->a[1] / 72) % 9 == 0) {
+    /* a run-time type: allocated by Type's own Alloc instance, registered with the collector like any other object */
+    var t = alloc_by_cls(Type, cls, tuple($S("RunTimeType"), $I(16)));
+    int oid = new_obj(t, HK_TYPEOBJ, cls);
+    slot_store(s, oid);
+    stat_add("heap.new_runtime_type", 1);
+    return;
+  }
   int nk = (!g_stopped && (cls == CL_MANAGED || cls == CL_ROOT) && (op->a[1] / 8) % 3 == 0) ? 1 + (int)((op->a[1] / 24) % 3) : 0;
   g_ctor_kids = nk;
   struct Node* n = alloc_by_cls(Node_T, cls, tuple());
@@ -540,9 +557,14 @@ static void op_newcont(const Op* op) {
   int s = (int)(((op->a[0] % NSLOT) + NSLOT) % NSLOT), cls = cls_norm(op->a[2]);
   int kind = HK_ARR + (int)(((op->a[1] % 7) + 7) % 7);
   var c;
+  int retyped_from = -1;
+  if ((kind == HK_ARR || kind == HK_LST) && (op->a[1] / 7) % 3 == 0) {
+    for (int t = 0; t < 6 && retyped_from < 0; t++) { int q = pick_obj(op->a[0] + t, 1);
+      if (q >= 0 && (O[q].kind == HK_ARR || O[q].kind == HK_LST) && obj_traversed(&O[q]) && CM[O[q].cidx].n > 0) retyped_from = q; }
+  }
   switch (kind) {
-    case HK_ARR:  c = alloc_by_cls(Array, cls, tuple(Ref)); break;
-    case HK_LST:  c = alloc_by_cls(List, cls, tuple(Ref)); break;
+    case HK_ARR:  c = alloc_by_cls(Array, cls, retyped_from >= 0 ? tuple(Int) : tuple(Ref)); break;
+    case HK_LST:  c = alloc_by_cls(List, cls, retyped_from >= 0 ? tuple(Float) : tuple(Ref)); break;
     case HK_TBLV: c = alloc_by_cls(Table, cls, tuple(Int, Ref)); break;
     case HK_TBLK: c = alloc_by_cls(Table, cls, tuple(Ref, Int)); break;
     case HK_TREV: c = alloc_by_cls(Tree, cls, tuple(Int, Ref)); break;
@@ -552,6 +574,12 @@ static void op_newcont(const Op* op) {
   int oid = new_obj(c, kind, cls);
   slot_store(s, oid);
   stat_add("heap.new_container", 1);
+  if (retyped_from >= 0) {
+    /* built for plain numbers, then given the contents (and so the element type) of a container of references */
+    assign(c, O[retyped_from].ptr);
+    CM[O[oid].cidx] = CM[O[retyped_from].cidx];
+    stat_add("heap.container_retyped_by_assign", 1);
+  }
 }
 
 #define ADVK (5LL*11*23*53)
@@ -560,6 +588,18 @@ static int64_t ckey(int64_t a) { int64_t k = ((a % 24) + 24) % 24; return 3 + k 
 static int cm_find_key(CModel* m, int64_t key) { for (int i = 0; i < m->n; i++) if (m->key[i] == key) return i; return -1; }
 
 static void op_link(const Op* op) {
+  if ((op->a[2] / 97) % 11 == 0) {
+    /* an occupied Box is assigned the object it already owns: nothing changes hands */
+    for (int t = 0; t < g_nobj; t++) {
+      int b = (int)(((op->a[0] + t) % g_nobj + g_nobj) % g_nobj);
+      if (O[b].kind != HK_BOX || !O[b].alive || O[b].freed || O[b].e[0] < 0 || !O[O[b].e[0]].alive) continue;
+      if (O[O[b].e[0]].kind != HK_NODE) continue;      /* (assign looks through a pointer-like operand: a Box of a Box would change owners) */
+      if (!(O[b].reach || O[b].cls == CL_ROOT || O[b].cls == CL_UNREG)) continue;
+      assign(O[b].ptr, O[O[b].e[0]].ptr);
+      stat_add("heap.box_assigned_its_own_object", 1);
+      return;
+    }
+  }
   int src = pick_obj(op->a[0], 1); if (src < 0) return;
   int dst = pick_obj(op->a[1], 0); if (dst < 0) return;
   Obj* s = &O[src]; var d = O[dst].ptr;
